@@ -70,6 +70,19 @@ def post(check, pairs, stats):
     ncp = sum(1 for impl, _ in pairs if impl.split(" ", 2)[1:2] and "-cp" in impl.split(" ", 2)[1])
     check.cfg["explanation"] += "; cp lines (close or nearly symmetric standard parallels: the stratum where the derived conditioning slack of the correspondence is exercised): %d" % ncp
     holes = []
+    # round h: every subset pattern of exactly-zero +towgs84 components (128 masks) on each side (zB, zA, zAB)
+    dz = {"zB": set(), "zA": set(), "zAB": set()}
+    for impl, _ in pairs:
+        t = impl.split(" ", 2)
+        if len(t) >= 3 and t[0] == "rt" and "-dz-" in t[1]:
+            tg = t[1].partition("/")[0].split("-")
+            for sd in dz:
+                if sd in tg:
+                    dz[sd].update(x for x in tg if x[:1] == "m" and x[1:].isdigit())
+    check.cfg["explanation"] += "; dz lines (exact-zero patterns of a 7-value +towgs84, masks seen per side): " + json.dumps({k_: len(v_) for k_, v_ in dz.items()}, sort_keys=True)
+    for sd, seen in sorted(dz.items()):
+        if len(seen) < 128:
+            holes.append("exact-zero towgs84 stratum: side %s has %d of 128 masks" % (sd, len(seen)))
     if ncp < 100:
         holes.append("close-parallels stratum: only %d lines" % ncp)
     # 30 = what the +datum=wgs84 (PROJ.4) spellings alone provide, so a change of the WKT reader (C20's subject) that makes
